@@ -362,7 +362,29 @@ func (g *mkGen) line(maxItems int, runnerSafe bool) []mkItem {
 			}
 			items = append(items, mkItem{K: "self", Name: nm, Props: ps, Sh: sh})
 		case r < 95:
-			items = append(items, g.replacement())
+			it := g.replacement()
+			if g.rnd.Intn(3) == 0 {
+				// the open form: contents read as raw text up to the close marker, replaced as a whole
+				raw := []int{}
+				for k := g.rnd.Intn(6); k > 0; k-- {
+					switch q := g.rnd.Intn(10); {
+					case q < 2:
+						raw = append(raw, 91)
+					case q < 3:
+						raw = append(raw, 93)
+					case q < 5:
+						raw = append(raw, 32)
+					default:
+						raw = append(raw, g.textChar())
+					}
+				}
+				it = mkItem{K: "ropen", RK: it.K, Props: it.Props, Raw: raw, Close: "name"}
+				if g.rnd.Intn(3) == 0 {
+					it.Close = "all"
+					open = nil
+				}
+			}
+			items = append(items, it)
 		default:
 			raw := []int{}
 			for k := g.rnd.Intn(7); k > 0; k-- {
